@@ -255,15 +255,43 @@ func codecCheck(c *Ctx, prop string) error {
 	n := c.N(10, 80)
 	nCodec := c.N(3, 12)
 	per := c.N(12, 60)
-	bt, items, err := buildBatch(n+nCodec, func(i int) *ir.Request {
+	// which Go plugin's output a package holds: C05 is about the SERVER's JSON (go-http alone — with
+	// both plugins in one package the client's identical-looking codec file would stand in for a
+	// missing server one); C04 covers both generators, one at a time (go-client alone only for
+	// schemas without unwrap, which only go-http emits codecs for: C14 `not_client_alone`)
+	reqCache := map[int]*ir.Request{}
+	var reqMu sync.Mutex
+	addFor := func(i int) scratch.AddOpts {
+		if prop == "C05" || i%2 == 0 {
+			return scratch.AddOpts{GoHTTP: true}
+		}
+		reqMu.Lock()
+		rq := reqCache[i]
+		reqMu.Unlock()
+		if rq != nil && strings.Contains(rq.JSON(), `"unwrap":true`) {
+			return scratch.AddOpts{GoHTTP: true}
+		}
+		return scratch.AddOpts{GoClient: true}
+	}
+	bt, items, err := buildBatchOpts(n+nCodec+2, func(i int) (out *ir.Request) {
+		defer func() {
+			reqMu.Lock()
+			reqCache[i] = out
+			reqMu.Unlock()
+		}()
 		var f *ir.File
-		if i < n {
+		switch {
+		case i < n:
 			f = gen.GenAnnotFile(r.Fork(fmt.Sprint(prop, "-", i)), i, gen.AnnotOpts{Safe: true})
-		} else {
+		case i < n+nCodec:
 			f = gen.GenCodecFile(r.Fork(fmt.Sprint(prop, "-codec-", i)), i)
+		default:
+			// every codec feature on a message declared INSIDE a parent that carries no annotation of
+			// its own: each nested type is exercised as a type of its own (an RPC may use it directly)
+			return gen.GenNestedAnnot(i, true)
 		}
 		return &ir.Request{Files: []*ir.File{f}, Generate: []string{f.Name}}
-	}, scratch.AddOpts{GoHTTP: true, GoClient: true}, false)
+	}, addFor, false)
 	if err != nil {
 		return err
 	}
@@ -281,8 +309,22 @@ func codecCheck(c *Ctx, prop string) error {
 		}
 		rr := r.Fork(fmt.Sprint("vals-", xi))
 		model := x.req.ToModel()
-		for _, m := range x.file.Messages {
-			full := "." + x.file.Package + "." + m.Name
+		// top-level messages and every nested declaration, under their full names
+		type namedMsg struct {
+			full string
+			m    *ir.Message
+		}
+		var msgs []namedMsg
+		var walkMsgs func(pfx string, ms []*ir.Message)
+		walkMsgs = func(pfx string, ms []*ir.Message) {
+			for _, m := range ms {
+				msgs = append(msgs, namedMsg{pfx + m.Name, m})
+				walkMsgs(pfx+m.Name+".", m.Nested)
+			}
+		}
+		walkMsgs("."+x.file.Package+".", x.file.Messages)
+		for _, nm := range msgs {
+			m, full := nm.m, nm.full
 			md := x.msgDesc(full)
 			if md == nil {
 				continue
@@ -476,7 +518,9 @@ func codecCheck(c *Ctx, prop string) error {
 		// canonical JSON decodes to (C04)
 		if do := decOut[k]; do != nil {
 			replay["decode_of_spec"] = do
+			cc.unknownKeys = strList(d["spec_unknown_keys"])
 			cc.decodeCheck("decode_contract_form", do["err"], do["fault"], do["val"], d["impl_dec_spec"], asym)
+			cc.unknownKeys = nil
 		}
 		if prop == "C04" {
 			// decode(encode v) = v up to the documented losses
@@ -535,7 +579,7 @@ func serveExchangeCheck(c *Ctx, all []*codecCase, obs func(*codecCase) (map[stri
 		if !ok {
 			mm = map[string]*methodInfo{}
 			for _, mi := range k.x.methods() {
-				if _, dup := mm[mi.m.Output]; !dup && mi.verb == "POST" && len(mi.pathVars) == 0 {
+				if _, dup := mm[mi.m.Output]; !dup && mi.verb == "POST" && len(mi.pathVars) == 0 && k.x.opts.GoHTTP {
 					mm[mi.m.Output] = mi
 				}
 			}
@@ -699,7 +743,14 @@ func (cc *codecCtx) decodeCheck(kind string, realErrAny, faultAny, realVal, pred
 	if realErr != "" {
 		agrees := predErr != nil
 		if agrees && class == "unknown_field" && plainIdent(key) && strings.Contains(realErr, "unknown field") && !strings.Contains(realErr, "unknown field \""+key+"\"") {
+			// the real decoder stops at the first unknown member in DOCUMENT order, the model at the
+			// first in its own traversal: any key the model calls unknown somewhere in the document agrees
 			agrees = false
+			for _, uk := range cc.unknownKeys {
+				if strings.Contains(realErr, "unknown field \""+uk+"\"") {
+					agrees = true
+				}
+			}
 		}
 		if agrees {
 			res.CorrAgree()
